@@ -200,3 +200,113 @@ func VerifE2E_Concurrent() {
 	}
 	verifrt.Reached("end-concurrent")
 }
+
+// VerifE2E_Exchange (C02 end to end): one request between the real requestor
+// and the real responder (no responder model) over every DAG and store split;
+// same oracle as VerifReq_Cooperative.
+func VerifE2E_Exchange() {
+	verifrt.SetNativeQuiesceMs(350)
+	n := verifrt.Param("BLOCKS", 3)
+	if verifrt.Param("EXACT", 0) == 0 {
+		n = 1 + verifrt.Choose("blocks", n)
+	}
+	dag := kit.ChooseDAG(n, verifrt.Param("NEST", 1), verifrt.Param("SHARED", 1) == 1, verifrt.Choose)
+	local := make([]bool, n)
+	remote := make([]bool, n)
+	for i := 0; i < n; i++ {
+		local[i] = verifrt.Bool("local")
+		remote[i] = verifrt.Bool("remote")
+	}
+	w := NewWorld(dag, local, remote, 1, 1)
+	rq := w.Req.StartAt(responderID, 0, 0)
+	kit.Drain()
+	ref := reqmgr.RefRequest(dag, func(i int) bool { return local[i] }, func(i int) bool { return remote[i] })
+	// the local prefix and whether everything is local
+	allLocal := true
+	{
+		var visit func(i int) bool
+		visit = func(i int) bool {
+			if !local[i] {
+				return false
+			}
+			for _, k := range dag.Kids[i] {
+				if !visit(k) {
+					return false
+				}
+			}
+			return true
+		}
+		allLocal = visit(0)
+	}
+	desc := ""
+	for i := 0; i < n; i++ {
+		desc += fmt.Sprintf("%d:%v ", i, dag.Kids[i])
+	}
+	got := outcome(rq)
+	verifrt.Eventf("dag %s -> %s stored=%s", desc, got, stored(w.Req, n))
+	verifrt.Assert(rq.ProgDone && rq.ErrDone, "C04 result channels not closed after the exchange ended")
+	if allLocal {
+		verifrt.Cover("all-local")
+		verifrt.Assert(len(w.Req.Sent) == 0, "C24 requestor that holds every block still sent something to the network")
+	}
+	if !ref[0].Resolved || (!allLocal && !remote[0]) {
+		verifrt.Assert(len(rq.Errors) >= 1, "C02 no error reported although the root block cannot be obtained")
+		verifrt.Reached("end-exchange")
+		return
+	}
+	want := "loads="
+	nMissing := 0
+	wantMissing := ""
+	withheldRegion := false
+	// known finding C02-F2: a block only the responder can supply that sits
+	// among the responder's first N link loads, N being the requestor's count
+	// of locally loaded blocks
+	localPrefix := 0
+	for _, l := range ref {
+		if l.Resolved && local[l.Link] {
+			localPrefix++
+		} else {
+			break
+		}
+	}
+	respVisits := kit.RefTraversal(dag, func(i int) bool { return remote[i] })
+	for _, l := range ref {
+		if l.Resolved {
+			want += fmt.Sprintf("%d@%s,", l.Link, l.Path)
+		} else {
+			nMissing++
+			wantMissing += fmt.Sprintf("missing%d,", l.Link)
+		}
+		if l.Remote {
+			for idx, v := range respVisits {
+				if v.Link == l.Link && v.Present && idx+1 <= localPrefix {
+					withheldRegion = true
+				}
+			}
+		}
+	}
+	gotLoads := "loads="
+	for _, d := range rq.Progress {
+		if d.IsRoot {
+			gotLoads += fmt.Sprintf("%d@%s,", d.Block, d.BlockPath)
+		}
+	}
+	gotMissing := ""
+	other := 0
+	for _, err := range rq.Errors {
+		if me, ok := err.(graphsync.RemoteMissingBlockErr); ok {
+			gotMissing += fmt.Sprintf("missing%d,", kit.LinkIndex(me.Link))
+		} else {
+			other++
+		}
+	}
+	verifrt.AssertKF(gotLoads == want, "C02 blocks delivered end to end differ from the blocks either peer can supply, or their order", "C02-F2", withheldRegion)
+	verifrt.AssertKF(gotMissing == wantMissing && other == 0, "C02 missing-block errors end to end do not match exactly the links neither side can supply", "C02-F2", withheldRegion)
+	for _, l := range ref {
+		if l.Remote {
+			verifrt.AssertKF(l.Link < len(w.Req.Store.Has) && w.Req.Store.Has[l.Link], "C02 a block obtained from the responder was not stored locally", "C02-F2", withheldRegion)
+			verifrt.Cover("remote-block-stored")
+		}
+	}
+	verifrt.Reached("end-exchange")
+}
